@@ -328,8 +328,12 @@ impl Run {
         for recv in &receivers {
             let r_arg = if *recv == staker { None } else { Some(recv.as_str()) };
             match sc.cfg.salt % 5 {
-                0 | 1 => {
+                0 => {
                     self.step(sc.recover(&u[0], None, None, r_arg));
+                }
+                1 => {
+                    // explicitly not paginated
+                    self.step(sc.recover(&u[0], Some(false), None, r_arg));
                 }
                 2 | 3 => {
                     self.step(sc.recover(&u[0], Some(true), None, r_arg));
@@ -385,6 +389,19 @@ impl Run {
         // that property's bounds and the refusal is an arithmetic abort.
         if self.model.on("C11") && !self.model.on("C16") && self.obs.l > 0 && self.obs.state_ok {
             let (n, l) = (self.obs.n, self.obs.l);
+            // a reward far beyond 64 bits at a 1:1 pool of the same size: fee, restake and counters are all
+            // representable, the product feeRate x reward is not (only in runs that watch nothing but the fees)
+            if self.model.enabled.len() == 1 {
+                let huge = 100_000_000_000_000_000_000_000_000_000_000_000u128; // 10^35
+                let r0 = self.obs.rewards;
+                self.step(sc.resume(huge, huge, r0));
+                self.step(Op::NativeMint { addr: coll.clone(), amount: huge });
+                self.step(sc.reward(&coll, &ch, huge));
+                self.relay_all("ack");
+                let r1 = self.obs.rewards;
+                self.step(sc.resume(n, l, r1));
+                self.model.count("huge_reward");
+            }
             self.step(sc.resume(n, l, u128::MAX - 50 - (sc.cfg.salt as u128 % 7)));
             self.step(Op::NativeMint { addr: coll.clone(), amount: 1000 });
             self.step(sc.reward(&coll, &ch, 40));
